@@ -135,7 +135,7 @@ def validate_translator(rec, system, option="euler", n_iter=2, dt=0.0078125, des
 
 # ------------------------------------------------------------------------------------------------
 # Euler: one step of the real engine == x + dt * law   (C01 leg 1, C03 engine leg, C15/C16 equivalences)
-def euler_step_terms(system, st, max_paths=64, fields=("state", "k", "D", "edge_sfc", "edge_dst", "dt"), dt_tag=0.00390625, sym_chem=None):
+def euler_step_terms(system, st, max_paths=64, fields=("state", "k", "D", "edge_sfc", "edge_dst", "dt"), dt_tag=0.00390625, sym_chem=None, grid_vol=None):
     """Symbolically executes initialize + one iterate + output fetch of the Euler engine through the
     tag-traced ABI. Yields (path, sample0 terms, sample1 terms, t terms, named) per feasible path."""
     script = make_script(system, "euler", dt_tag)
@@ -144,10 +144,15 @@ def euler_step_terms(system, st, max_paths=64, fields=("state", "k", "D", "edge_
     ns, nc = len(system.network.species), system.space.size()
     if sym_chem is not None:
         named_s["chstt"] = list(sym_chem)
+    if grid_vol is not None:
+        named_s["vol"] = grid_vol[0]
 
     def body(I):
         for c in st.positivity():
             I.assume(c)
+        if grid_vol is not None:
+            I.assume(grid_vol[1] > 0)
+            I.cbrt_known = [(grid_vol[0], grid_vol[1])]
         if sym_chem is not None:
             for c in sym_chem:
                 I.assume(z3.And(c >= 0, c <= 1))
@@ -165,7 +170,7 @@ def euler_step_terms(system, st, max_paths=64, fields=("state", "k", "D", "edge_
 
 
 def check_euler_step(rec, netname, spacedesc, chem=None, label="euler step = law", fields=("state", "k", "D", "edge_sfc", "edge_dst", "dt"),
-                     sym_chem=False, per_path=None):
+                     sym_chem=False, per_path=None, sym_vol=False):
     """Obligations: sample 0 = input state (layout), sample 1 = x + dt*law for every (species, cell).
     sym_chem: the chemostat flags handed to the ABI are solver variables in {0,1} (all 2^(S*C) maps at once);
     the expected value is then  If(flag(s,i), x, x + dt*law_without_flags)."""
@@ -182,8 +187,15 @@ def check_euler_step(rec, netname, spacedesc, chem=None, label="euler step = law
         law = {(s, i): z3.If(flags[s * nc + i] != 0, z3.RealVal(0), raw[(s, i)]) for s in range(ns) for i in range(nc)}
     else:
         law = rate_law(system, st, X, with_chemostats=True)
+    gv = None
+    if sym_vol:
+        # the cell volume itself a solver variable: V = h^3 with h > 0 (the engine's pow(V, 1/3) is then exactly h)
+        hh = z3.Real("cell_edge")
+        gv = (hh * hh * hh, hh)
+        desc += " volume=symbolic"
+        law = rate_law(system, st, X, with_chemostats=True, grid_vol=gv)
     npaths = 0
-    for pr, named_s in euler_step_terms(system, st, fields=fields, sym_chem=flags):
+    for pr, named_s in euler_step_terms(system, st, fields=fields, sym_chem=flags, grid_vol=gv):
         if pr.I is None:
             rec.oblig(label, "inconclusive", pr.ended, structure=desc)
             continue
